@@ -1323,7 +1323,7 @@ fn directed_timeout_after_restart(cx: &mut Ctx) {
         cx.rep.case("directed", Some(&w.trace.join(";")));
         cx.rep.hit("directed.timeout-after-restart");
         // a timeout is not logged: the prepared transaction is back after the next restart
-        if w.c().get(w.book.txs[0].real).is_none() && !w.book.durable.contains_key(&1) {
+        if w.book.durable.get(&1) == Some(&'c') && w.trace.iter().any(|l| l.starts_with("cleanup")) {
             cx.rep.observe(json!({"what": "prepared transaction timed out after restart, then committed after the next restart: cleanup_timeouts writes nothing to the WAL, so a timeout is forgotten by a restart (outside C13: only logged outcomes are protected)", "trace": w.trace}));
         }
     }
